@@ -178,6 +178,7 @@ SENTENCES = [
     "y ~ f ( x , ' a ' )",
     "y ~ I ( a < b == c ) + g ( a == b != c , k = a + b * c )", "y ~ I ( a >= b < c <= d )", "y ~ f ( a + 1 > b == c - 2 )", "y ~ { a - b - c } + { a / b * c }",
     "y ~ f ( a ** b ** c , - a ** b ) : g ( a * b : c )",
+    "y ~ f ( x , k = 2 ) + f ( x , k = 3 )", "y ~ f ( x , 2 ) + f ( x , 3 )", "y ~ f ( x , k = 's' ) : f ( x , k = 't' )", "y ~ f ( x , k = True ) + f ( x , k = False ) + ( 1 | g ( h , 1 ) ) + ( 1 | g ( h , 2 ) )",
     "y [ '' ] ~ a", 'y [ "" ] ~ a + f ( b , \'\' )', "y [ ' ' ] ~ a", "y [ 's' ] ~ f ( a , k = '' ) + f ( a , k = 's' )",
 ]
 # chains around a multi-term base: associativity of ** and its precedence against : * / + are only observable here
@@ -275,6 +276,7 @@ def md_key(formula):
     return model_key(model_description(formula))
 
 
+REPLACEMENTS = {"STR": ("''", "'zz'"), "NUM": ("7", "77"), "ID": ("zq",), "PYLIT": ("None", "True")}
 _FRAME = []
 
 
@@ -423,8 +425,9 @@ def check_case(case, acc):
                     problems.append(("whitespace", f"{s!r} -> {key} but {v!r} -> {kv}"))
             except Exception as e:
                 problems.append(("whitespace", f"{s!r} accepted but {v!r} raised {type(e).__name__}"))
-    # a string literal is never ignored: another literal in its place (the empty one included) gives another model
-    if len(toks) <= 12 and not any(t[0] == "-" for t in toks):  # (a removed term may legitimately differ without trace)
+    # no token inside a call or a subscript is ignored: another literal / name in its place gives another model
+    # (a removed term may legitimately differ without trace; what a group term of a group term means is not defined)
+    if len(toks) <= 12 and not any(t[0] == "-" for t in toks) and sum(t[0] == "|" for t in toks) <= 1:
         inside = set()
 
         def mark(n):
@@ -439,9 +442,9 @@ def check_case(case, acc):
 
         mark(G.parse(toks))
         for j, t in enumerate(toks):
-            if t[0] != "STR" or j not in inside:
+            if t[0] not in REPLACEMENTS or j not in inside:
                 continue
-            for other in ("''", "'zz'"):
+            for other in REPLACEMENTS[t[0]]:
                 if other == t[1]:
                     continue
                 v = " ".join(other if i == j else u[1] for i, u in enumerate(toks))
